@@ -1,8 +1,12 @@
 (* Errors.v — C06: the error a failing parse reports is justified by a failed attempt, points
    at the furthest failure, and is rendered as file:line:column.
 
-   Part 0  syntactic classes of expressions ([notrim], [ne], [guarded], [enames]) and the
-           nested induction principle of [pexpr].
+   All theorems are about grammars over SINGLE-BYTE terminals: [runes_only] (no [TLit] literal
+   parser) is a conjunct of the fragment predicates [notrim] and [ok4]
+   ([C06_not_beyond_needs_runes_only] shows the statements are false with literals).
+
+   Part 0  syntactic classes of expressions ([runes_only], [notrim], [ne], [guarded], [enames])
+           and the nested induction principle of [pexpr].
    Part 1  "never empty-handed": an [ne] expression returns a node or an error ([ne_inv]).
    Part 2  the JUSTIFICATION invariant: every error in play (returned error, Context.err,
            cached errors, the sequence accumulator) is justified by the current log of failed
@@ -17,7 +21,7 @@
    Part 5  productive grammars satisfy the cache hypothesis: [C06_furthest] (the reported
            position EQUALS the furthest failed attempt), [productive_b] (decidable). *)
 From Coq Require Import String List NArith ZArith Bool Arith Lia.
-From Parsley Require Import Obs Base FileSet FileSetProofs Grammar Engine EngineFacts SetMapFacts Spec EngineHarness.
+From Parsley Require Import Obs Base FileSet FileSetProofs Grammar Engine TermFacts EngineFacts SetMapFacts Spec EngineHarness.
 Import ListNotations.
 Open Scope N_scope.
 
@@ -25,14 +29,33 @@ Open Scope N_scope.
 (* Part 0: syntactic classes                                                              *)
 (* ------------------------------------------------------------------------------------- *)
 
-(* the fragment of C06: no trimming combinator *)
-Fixpoint notrim (e : pexpr) : bool :=
+(* every terminal is a single-byte (rune) terminal [TRune], none a literal parser [TLit].
+   The error theorems of this file are theorems about grammars over single-byte terminals: a
+   rune terminal fails AT the position where it was tried, whereas a literal parser's error can
+   lie BEYOND its start position (e.g. an unterminated string literal: the attempt is logged at
+   the opening quote, the error points at the end of the input), which the justification
+   invariant of Part 2 ("the reported position is the position of a logged attempt") does not
+   cover.  So [runes_only] is a conjunct of both fragment predicates [notrim] and [ok4]. *)
+Fixpoint runes_only (e : pexpr) : bool :=
+  match e with
+  | PTerm t => is_rune_term t
+  | PEmpty | PEnd | PRef _ => true
+  | PMemo _ p | POpt p | PName _ p | PLeftTrim _ p | PRightTrim _ p | PSuppress p | PSingle p => runes_only p
+  | PAny ps | PChoice ps | PSeq _ _ _ _ ps => forallb runes_only ps
+  end.
+
+(* no trimming combinator *)
+Fixpoint trimfree (e : pexpr) : bool :=
   match e with
   | PTerm _ | PEmpty | PEnd | PRef _ => true
-  | PMemo _ p | POpt p | PName _ p | PSuppress p | PSingle p => notrim p
-  | PAny ps | PChoice ps | PSeq _ _ _ _ ps => forallb notrim ps
+  | PMemo _ p | POpt p | PName _ p | PSuppress p | PSingle p => trimfree p
+  | PAny ps | PChoice ps | PSeq _ _ _ _ ps => forallb trimfree ps
   | PLeftTrim _ _ | PRightTrim _ _ => false
   end.
+(* the fragment of C06: no trimming combinator, every terminal a rune terminal *)
+Definition notrim (e : pexpr) : bool := trimfree e && runes_only e.
+Lemma notrim_runes_only e : notrim e = true -> runes_only e = true.
+Proof. unfold notrim. intros H. apply andb_true_iff in H. exact (proj2 H). Qed.
 
 (* sequence kinds whose operand list has the shape the constructors of the library give it
    (SeqTry of no parser can return neither node nor error; Many has one operand, SepBy two) *)
@@ -123,14 +146,15 @@ Section PexprInd.
     end.
 End PexprInd.
 
-(* the predicate the engine proofs carry: no trimming, every name is one of [Nm], and (in
-   strict mode) every Name is guarded *)
+(* the predicate the engine proofs carry: no trimming, rune terminals only, every name is one
+   of [Nm], and (in strict mode) every Name is guarded *)
 Section Okx.
   Variable Nm : list N -> Prop.
   Variable strict : bool.
   Fixpoint okx (e : pexpr) : Prop :=
     match e with
-    | PTerm _ | PEmpty | PEnd | PRef _ => True
+    | PTerm t => is_rune_term t = true
+    | PEmpty | PEnd | PRef _ => True
     | PMemo _ p | POpt p | PSuppress p | PSingle p => okx p
     | PName nm p => Nm nm /\ (strict = true -> ne p = true) /\ okx p
     | PAny ps | PChoice ps =>
@@ -153,26 +177,36 @@ Section Okx.
     split; [apply H; left; reflexivity|apply IH; intros p Hp; apply H; right; exact Hp].
   Qed.
 
-  Lemma okx_intro e :
-    notrim e = true -> (strict = true -> guarded e = true) -> (forall nm, In nm (enames e) -> Nm nm) -> okx e.
+  Lemma okx_intro0 e :
+    trimfree e = true -> runes_only e = true -> (strict = true -> guarded e = true) ->
+    (forall nm, In nm (enames e) -> Nm nm) -> okx e.
   Proof.
-    induction e using pexpr_ind'; cbn [notrim guarded enames okx]; intros Hn Hg Hnm; try exact I; try discriminate;
+    induction e using pexpr_ind'; cbn [trimfree runes_only guarded enames okx]; intros Hn Hr Hg Hnm; try exact I; try discriminate;
       try (apply IHe; assumption).
-    - (* PAny *) apply okxs_intro. intros p Hp. rewrite forallb_forall in Hn. apply H; [exact Hp|apply Hn; exact Hp| |].
+    - (* PTerm *) exact Hr.
+    - (* PAny *) apply okxs_intro. intros p Hp. rewrite forallb_forall in Hn, Hr.
+      apply H; [exact Hp|apply Hn; exact Hp|apply Hr; exact Hp| |].
       + intros Hs. specialize (Hg Hs). rewrite forallb_forall in Hg. apply Hg; exact Hp.
       + intros nm Hin. apply Hnm. apply in_flat_map. exists p. split; assumption.
-    - (* PChoice *) apply okxs_intro. intros p Hp. rewrite forallb_forall in Hn. apply H; [exact Hp|apply Hn; exact Hp| |].
+    - (* PChoice *) apply okxs_intro. intros p Hp. rewrite forallb_forall in Hn, Hr.
+      apply H; [exact Hp|apply Hn; exact Hp|apply Hr; exact Hp| |].
       + intros Hs. specialize (Hg Hs). rewrite forallb_forall in Hg. apply Hg; exact Hp.
       + intros nm Hin. apply Hnm. apply in_flat_map. exists p. split; assumption.
     - (* PSeq *) split.
       + destruct nm as [n|]; [|exact I]. apply Hnm. apply in_or_app. left. left. reflexivity.
-      + apply okxs_intro. intros p Hp. rewrite forallb_forall in Hn. apply H; [exact Hp|apply Hn; exact Hp| |].
+      + apply okxs_intro. intros p Hp. rewrite forallb_forall in Hn, Hr.
+        apply H; [exact Hp|apply Hn; exact Hp|apply Hr; exact Hp| |].
         * intros Hs. specialize (Hg Hs). rewrite forallb_forall in Hg. apply Hg; exact Hp.
         * intros nm' Hin. apply Hnm. apply in_or_app. right. apply in_flat_map. exists p. split; assumption.
     - (* PName *) split; [apply Hnm; left; reflexivity|]. split.
       + intros Hs. specialize (Hg Hs). apply andb_true_iff in Hg. exact (proj1 Hg).
-      + apply IHe; [exact Hn| |intros nm' Hin; apply Hnm; right; exact Hin].
+      + apply IHe; [exact Hn|exact Hr| |intros nm' Hin; apply Hnm; right; exact Hin].
         intros Hs. specialize (Hg Hs). apply andb_true_iff in Hg. exact (proj2 Hg).
+  Qed.
+  Lemma okx_intro e :
+    notrim e = true -> (strict = true -> guarded e = true) -> (forall nm, In nm (enames e) -> Nm nm) -> okx e.
+  Proof.
+    unfold notrim. intros Hn. apply andb_true_iff in Hn. destruct Hn as [Hn Hr]. apply okx_intro0; assumption.
   Qed.
 End Okx.
 
@@ -296,9 +330,9 @@ Section NE.
     Proof.
       intros e c stk lrc pos res cp err c' Hne H.
       destruct e; cbn [ne] in Hne; try discriminate; cbn [parse_step] in H.
-      - (* PTerm *) destruct t as [ch]. unfold term_parse in H.
-        destruct (byte_at inp pos) as [b|]; [destruct (b =? ch)|]; inversion H; subst;
-          [left|right|right]; discriminate.
+      - (* PTerm: rune and literal terminals alike *)
+        destruct (term_parse inp t pos) as [res0 err0] eqn:E. inversion H; subst.
+        destruct res as [|n res]; [right; exact (term_parse_nil _ _ _ _ E)|left; discriminate].
       - (* PEmpty *) inversion H; subst. left; discriminate.
       - (* PEnd *) destruct (is_eof inp pos); inversion H; subst; [left|right]; discriminate.
       - (* PAny *) apply (any_loop_ne _ _ _ _ _ _ _ _ _ _ _ _ _ (or_intror (or_intror Hne)) H).
@@ -533,6 +567,10 @@ Section Just.
   Variable Nm : list N -> Prop.
   Variable strict : bool.
   Hypothesis Hrules : forall k body, nth_N rules k = Some body -> okx Nm strict body.
+  (* TermFacts loads ZifyBool (through ReaderProofs); with it [lia] looks at the boolean section
+     hypotheses and every lemma proved with it would needlessly depend on them: hide them from it
+     (the override disappears at the end of the section) *)
+  Ltac lia := try clear Hrules; Lia.lia.
 
   (* an error is justified by the log F of failed attempts: it is inside the file and
      (A) it IS a logged failed attempt, or
@@ -600,7 +638,7 @@ Section Just.
     - right. right. split; [exact Hs|]. exists nm. split; [reflexivity|exact Hnm].
   Qed.
   Lemma rename_pos nm pos e : pos <= epos e -> pos <= epos (rename_err nm pos e).
-  Proof. intros H. unfold rename_err. destruct ((epos e =? pos) && is_notfound e); [cbn; lia|exact H]. Qed.
+  Proof. intros H. unfold rename_err. destruct ((epos e =? pos) && is_notfound e); [cbn [mk_err epos]; apply N.le_refl|exact H]. Qed.
 
   Definition pj (rp : ptype) : Prop :=
     forall e c stk lrc pos res cp err c',
@@ -676,11 +714,12 @@ Section Just.
           apply cj_set_error; [exact Hc2|]. intros x Hx'. exact (proj1 (Herr1 x Hx')).
     Qed.
 
+    (* a rune terminal fails AT its position; a literal's error can lie beyond it (not covered) *)
     Lemma term_parse_just t pos res err :
-      in_file inp pos -> term_parse inp t pos = (res, err) ->
+      is_rune_term t = true -> in_file inp pos -> term_parse inp t pos = (res, err) ->
       res_ok pos res /\ (forall x, err = Some x -> epos x = pos /\ nows (ecause x)) /\ (res = [] \/ err = None).
     Proof.
-      intros [Hlo Hhi] H. destruct t as [ch]. unfold term_parse in H.
+      intros Ht [Hlo Hhi] H. destruct t as [ch|l]; [|discriminate]. unfold term_parse in H.
       destruct (byte_at inp pos) as [b|] eqn:Eb; [destruct (b =? ch)|]; inversion H; subst.
       - split; [|split; [discriminate|right; reflexivity]].
         intros n [E|[]]. subst n. apply byte_at_lt in Eb. cbn [nb node_rpos].
@@ -696,7 +735,7 @@ Section Just.
       destruct e; cbn [okx] in Hok; try contradiction; cbn [parse_step] in H.
       - (* PTerm *)
         destruct (term_parse inp t pos) as [res0 err0] eqn:E. inversion H; subst.
-        destruct (term_parse_just t pos res err Hin E) as [Hres [Hpos Hor]].
+        destruct (term_parse_just t pos res err Hok Hin E) as [Hres [Hpos Hor]].
         destruct res as [|n res]; [destruct err as [x|]|].
         + destruct (Hpos x eq_refl) as [Hpos' Hnw]. clear Hpos. rename Hpos' into Hpos.
           split; [apply ext_log_fail|]. split; [apply cj_log_fail; assumption|].
@@ -862,6 +901,7 @@ Section Top.
   Variable Nm : list N -> Prop.
   Variable strict : bool.
   Hypothesis Hrules : forall k body, nth_N rules k = Some body -> okx Nm strict body.
+  Ltac lia := try clear Hrules; Lia.lia.   (* see Section Just *)
 
   Lemma cj_ctx0 : cj inp Nm strict ctx0.
   Proof. split; [intros x Hx; discriminate|]. split; [intros idx p r []|intros q k []]. Qed.
@@ -1017,7 +1057,7 @@ Definition ex_c := PTerm (TRune 99).
 Definition ex_seq (ps : list pexpr) := PSeq SeqOf INone false None ps.
 (* P -> P b | a *)
 Definition ex_P := PMemo 0 (PAny [ex_seq [PRef 0; ex_b]; ex_a]).
-Definition ex_inp (l : list N) := {| i_data := l; i_offset := 1 |}.
+Definition ex_inp (l : list N) := mk_input l 1.
 Definition top_view (o : outcome top) : option (perr * list (N * cause)) :=
   match o with Ok (TopErr e c) => Some (e, g_fails c) | _ => None end.
 
@@ -1061,6 +1101,18 @@ Example C06_example_exception_iv :
     Some (mk_err 1 (CNotFound name_valid_input), []).
 Proof. vm_compute. reflexivity. Qed.
 
+(* why [runes_only] is part of [notrim]: Sentence(terminal.String) on the unterminated literal
+   ["ab] reports position 4 (the end of the input, "was expecting '"'") whereas the only logged
+   attempt is the String parser's own start, position 1 — a literal parser's error can lie beyond
+   the attempt that produced it, so "not beyond a logged failed attempt" is FALSE with literals *)
+Example C06_not_beyond_needs_runes_only :
+  trimfree (PTerm (TLit (LString false))) = true /\ runes_only (PTerm (TLit (LString false))) = false /\
+  match parse_top (ex_inp [34; 97; 98]) [] 200 (sentence (PTerm (TLit (LString false)))) with
+  | Ok (TopErr e c) => epos e = 4 /\ map fst (g_fails c) = [1]
+  | _ => False
+  end.
+Proof. vm_compute. repeat split. Qed.
+
 (* ------------------------------------------------------------------------------------- *)
 (* Part 3: rendering — "failed to parse the input: <expectation> at f:<line>:<column>"     *)
 (* ------------------------------------------------------------------------------------- *)
@@ -1085,7 +1137,7 @@ Lemma eng_spec_position data offset p :
   in_file (eng_input data offset) p ->
   spec_position (eng_files data offset) p = Some (render_pos data offset p).
 Proof.
-  unfold in_file, eng_input, i_len, len_N. cbn [i_offset i_data]. intros [Hlo Hhi].
+  unfold in_file, eng_input, mk_input, i_len, len_N. cbn [i_offset i_data]. intros [Hlo Hhi].
   unfold eng_files, render_pos. destruct (offset <=? 1) eqn:Eo.
   - set (f := new_file [102] data).
     assert (Hc : p - 1 <= f_len f) by (unfold f, f_len, new_file; cbn [f_data]; lia).
@@ -1287,14 +1339,17 @@ Section Ne1.
   Qed.
   (* the fragment of the coverage theorem: no trimming, no SuppressError, and every sequence
      has a well-shaped operand list whose non-first operands are [ne1] *)
-  Fixpoint ok4 (e : pexpr) : bool :=
+  Fixpoint ok4s (e : pexpr) : bool :=
     match e with
     | PTerm _ | PEmpty | PEnd | PRef _ => true
-    | PMemo _ p | POpt p | PName _ p | PSingle p => ok4 p
-    | PAny ps | PChoice ps => forallb ok4 ps
-    | PSeq k _ _ _ ps => kind_ok k (length ps) && tail_ne1 k ps && forallb ok4 ps
+    | PMemo _ p | POpt p | PName _ p | PSingle p => ok4s p
+    | PAny ps | PChoice ps => forallb ok4s ps
+    | PSeq k _ _ _ ps => kind_ok k (length ps) && tail_ne1 k ps && forallb ok4s ps
     | PSuppress _ | PLeftTrim _ _ | PRightTrim _ _ => false
     end.
+  (* ... and every terminal is a rune terminal (the coverage invariant itself, [cov_inv], needs only
+     the shape part [ok4s]; the rune terminals are needed by the justification invariant it uses) *)
+  Definition ok4 (e : pexpr) : bool := ok4s e && runes_only e.
 End Ne1.
 
 Section NE1.
@@ -1367,9 +1422,9 @@ Section NE1.
     Proof.
       intros e c stk pos res cp err c' Hne H Hfin.
       destruct e; cbn [ne1] in Hne; try discriminate; cbn [parse_step] in H.
-      - (* PTerm *) destruct t as [ch]. unfold term_parse in H.
-        destruct (byte_at inp pos) as [b|]; [destruct (b =? ch)|]; inversion H; subst;
-          [left|right|right]; discriminate.
+      - (* PTerm: rune and literal terminals alike *)
+        destruct (term_parse inp t pos) as [res0 err0] eqn:E. inversion H; subst.
+        destruct res as [|n res]; [right; exact (term_parse_nil _ _ _ _ E)|left; discriminate].
       - (* PEmpty *) inversion H; subst. left; discriminate.
       - (* PEnd *) destruct (is_eof inp pos); inversion H; subst; [left|right]; discriminate.
       - (* PRef *) destruct (nth_N rules k) as [body|]; [|discriminate].
@@ -1598,7 +1653,8 @@ Section Cov.
   Variable strict : bool.
   Variable final : list ((N * N) * result).
   Hypothesis Hrules : forall k body, nth_N rules k = Some body -> okx Nm strict body.
-  Hypothesis Hrules4 : forall k body, nth_N rules k = Some body -> ok4 rules body = true.
+  Hypothesis Hrules4 : forall k body, nth_N rules k = Some body -> ok4s rules body = true.
+  Ltac lia := try clear Hrules; try clear Hrules4; Lia.lia.   (* see Section Just *)
   Hypothesis Hfinal : cache_live0 final.
   Notation hi := (i_offset inp + i_len inp).
   Notation cj' := (cj inp Nm strict).
@@ -1607,14 +1663,14 @@ Section Cov.
 
   Definition pc (rp : ptype) : Prop :=
     forall e c stk lrc pos res cp err c',
-      ok4 rules e = true -> okx Nm strict e -> cj' c -> in_file inp pos ->
+      ok4s rules e = true -> okx Nm strict e -> cj' c -> in_file inp pos ->
       rp e c stk lrc pos = Ok (res, cp, err, c') -> incl (cache c') final ->
       forall q, newf c c' q -> cov q err c' pos (rcov err res).
 
   Definition sc (rs : stype) : Prop :=
     forall q d c stk lrc pos m st stop st' c' pos0,
       kind_ok (q_kind q) (length (q_ps q)) = true -> tail_ne1 rules (q_kind q) (q_ps q) = true ->
-      forallb (ok4 rules) (q_ps q) = true -> okxs Nm strict (q_ps q) -> dbound q d ->
+      forallb (ok4s rules) (q_ps q) = true -> okxs Nm strict (q_ps q) -> dbound q d ->
       cj' c -> in_file inp pos -> pos0 <= pos -> (d = 0%nat -> pos = pos0) -> (pos0 < pos -> lrc = []) ->
       st_ok' (g_fails c) pos0 st -> (forall n, In n (s_nodes st) -> nb inp n) ->
       (match s_nodes st with [] => True | n :: _ => node_rpos n = pos end) ->
@@ -1634,7 +1690,7 @@ Section Cov.
     Hypothesis Hcs : sc rs.
 
     Lemma any_loop_cov cs stk lrc pos ps : forall c cp res err nf res' cp' err' c',
-      forallb (ok4 rules) ps = true -> okxs Nm strict ps -> cj' c -> in_file inp pos -> ext cs c ->
+      forallb (ok4s rules) ps = true -> okxs Nm strict ps -> cj' c -> in_file inp pos -> ext cs c ->
       res_ok inp pos res -> err_ok' (g_fails c) pos err -> err_ok' (g_fails c) pos nf ->
       (forall q, newf cs c q -> cov q err c pos res) ->
       any_loop rp stk lrc pos ps c cp res err nf = Ok (res', cp', err', c') -> incl (cache c') final ->
@@ -1679,7 +1735,7 @@ Section Cov.
     Qed.
 
     Lemma choice_loop_cov cs stk lrc pos ps : forall c cp err nf res' cp' err' c',
-      forallb (ok4 rules) ps = true -> okxs Nm strict ps -> cj' c -> in_file inp pos -> ext cs c ->
+      forallb (ok4s rules) ps = true -> okxs Nm strict ps -> cj' c -> in_file inp pos -> ext cs c ->
       err_ok' (g_fails c) pos err -> err_ok' (g_fails c) pos nf ->
       (forall q, newf cs c q -> cov q err c pos []) ->
       choice_loop rp stk lrc pos ps c cp err nf = Ok (res', cp', err', c') -> incl (cache c') final ->
@@ -1732,7 +1788,7 @@ Section Cov.
     Lemma parse_step_cov : pc (parse_step inp rules rp rs).
     Proof.
       intros e c stk lrc pos res cp err c' Ho4 Hok Hcj Hin H Hfin q Hq.
-      destruct e; cbn [ok4] in Ho4; try discriminate; cbn [okx] in Hok; cbn [parse_step] in H.
+      destruct e; cbn [ok4s] in Ho4; try discriminate; cbn [okx] in Hok; cbn [parse_step] in H.
       - (* PTerm *)
         destruct (term_parse inp t pos) as [res0 err0] eqn:E. inversion H; subst.
         destruct res as [|n res]; [destruct err as [x|]|]; try (exfalso; eapply newf_same; [|exact Hq]; reflexivity).
@@ -1824,7 +1880,7 @@ Section Cov.
     Qed.
     Lemma alts_loop_cov q d stk lrc pos m prefix pos0 ns : forall st c stop st' c',
       kind_ok (q_kind q) (length (q_ps q)) = true -> tail_ne1 rules (q_kind q) (q_ps q) = true ->
-      forallb (ok4 rules) (q_ps q) = true -> okxs Nm strict (q_ps q) -> dbound q (S d) ->
+      forallb (ok4s rules) (q_ps q) = true -> okxs Nm strict (q_ps q) -> dbound q (S d) ->
       pos0 <= pos -> (pos0 < pos -> lrc = []) ->
       (forall n, In n prefix -> nb inp n) -> (forall n, In n ns -> nb inp n /\ pos <= node_rpos n) ->
       cj' c -> st_ok' (g_fails c) pos0 st ->
@@ -2002,10 +2058,11 @@ Section TopCov.
   Variable Nm : list N -> Prop.
   Variable strict : bool.
   Hypothesis Hrules : forall k body, nth_N rules k = Some body -> okx Nm strict body.
-  Hypothesis Hrules4 : forall k body, nth_N rules k = Some body -> ok4 rules body = true.
+  Hypothesis Hrules4 : forall k body, nth_N rules k = Some body -> ok4s rules body = true.
+  Ltac lia := try clear Hrules; try clear Hrules4; Lia.lia.   (* see Section Just *)
 
   Lemma parse_top_cov fuel r0 e c :
-    ok4 rules r0 = true -> okx Nm strict r0 -> cache_live0 (cache c) ->
+    ok4s rules r0 = true -> okx Nm strict r0 -> cache_live0 (cache c) ->
     parse_top inp rules fuel r0 = Ok (TopErr e c) ->
     forall q k, In (q, k) (g_fails c) -> q <= epos e.
   Proof.
@@ -2049,16 +2106,25 @@ Section TopCov.
   Qed.
 End TopCov.
 
-Lemma ok4_notrim rules e : ok4 rules e = true -> notrim e = true.
+Lemma ok4s_trimfree rules e : ok4s rules e = true -> trimfree e = true.
 Proof.
-  induction e using pexpr_ind'; cbn [ok4 notrim]; intros Ho; try reflexivity; try discriminate; try (apply IHe; exact Ho).
+  induction e using pexpr_ind'; cbn [ok4s trimfree]; intros Ho; try reflexivity; try discriminate; try (apply IHe; exact Ho).
   - apply forallb_forall. intros p Hp. rewrite forallb_forall in Ho. apply H; [exact Hp|apply Ho; exact Hp].
   - apply forallb_forall. intros p Hp. rewrite forallb_forall in Ho. apply H; [exact Hp|apply Ho; exact Hp].
   - apply andb_true_iff in Ho. destruct Ho as [_ Ho].
     apply forallb_forall. intros p Hp. rewrite forallb_forall in Ho. apply H; [exact Hp|apply Ho; exact Hp].
 Qed.
-Lemma sentence_ok4 rules root : ok4 rules root = true -> ok4 rules (sentence root) = true.
-Proof. intros H. unfold sentence. cbn [ok4 kind_ok length tail_ne1 tl forallb ne1]. rewrite H. reflexivity. Qed.
+Lemma ok4_ok4s rules e : ok4 rules e = true -> ok4s rules e = true.
+Proof. unfold ok4. intros H. apply andb_true_iff in H. exact (proj1 H). Qed.
+Lemma ok4_runes_only rules e : ok4 rules e = true -> runes_only e = true.
+Proof. unfold ok4. intros H. apply andb_true_iff in H. exact (proj2 H). Qed.
+Lemma ok4_notrim rules e : ok4 rules e = true -> notrim e = true.
+Proof.
+  unfold ok4, notrim. intros H. apply andb_true_iff in H. destruct H as [H1 H2].
+  rewrite (ok4s_trimfree rules e H1), H2. reflexivity.
+Qed.
+Lemma sentence_ok4s rules root : ok4s rules root = true -> ok4s rules (sentence root) = true.
+Proof. intros H. unfold sentence. cbn [ok4s kind_ok length tail_ne1 tl forallb ne1]. rewrite H. reflexivity. Qed.
 
 (* THEOREM (C06, second half, conditional form).  No failed attempt lies beyond the reported
    position, provided [cache_live0 (cache c)]: no result that Memoize stored for reuse in
@@ -2077,12 +2143,12 @@ Theorem C06_no_attempt_lost inp rules fuel root e c :
   forall q k, In (q, k) (g_fails c) -> q <= epos e.
 Proof.
   intros Ho Hos Hlive H.
-  assert (Hr4 : forall k body, nth_N rules k = Some body -> ok4 rules body = true).
-  { intros k body Hk. rewrite forallb_forall in Hos. apply Hos. eapply nth_error_In; exact Hk. }
+  assert (Hr4 : forall k body, nth_N rules k = Some body -> ok4s rules body = true).
+  { intros k body Hk. apply ok4_ok4s. rewrite forallb_forall in Hos. apply Hos. eapply nth_error_In; exact Hk. }
   assert (Hns : forallb notrim rules = true).
   { apply forallb_forall. intros p Hp. apply (ok4_notrim rules). rewrite forallb_forall in Hos. apply Hos; exact Hp. }
   destruct (grammar_okx false root rules (ok4_notrim _ _ Ho) Hns ltac:(discriminate)) as [Hok Hrules].
-  exact (parse_top_cov inp rules _ false Hrules Hr4 fuel (sentence root) e c (sentence_ok4 _ _ Ho) (sentence_okx _ _ _ Hok) Hlive H).
+  exact (parse_top_cov inp rules _ false Hrules Hr4 fuel (sentence root) e c (sentence_ok4s _ _ (ok4_ok4s _ _ Ho)) (sentence_okx _ _ _ Hok) Hlive H).
 Qed.
 
 Theorem C06_furthest_partial inp rules fuel root e c :
@@ -2112,6 +2178,7 @@ Section Live.
   Variable inp : input.
   Variable rules : list pexpr.
   Hypothesis Hrules : forall k body, nth_N rules k = Some body -> mne body = true.
+  Ltac lia := try clear Hrules; Lia.lia.   (* see Section Just *)
 
   Definition pl (rp : ptype) : Prop :=
     forall e c stk lrc pos res cp err c',
@@ -2359,6 +2426,7 @@ Section Prod.
     | PLeftTrim _ _ | PRightTrim _ _ => false
     end.
   Hypothesis Hrules : forall k body, nth_N rules k = Some body -> ranked body = true.
+  Ltac lia := try clear Hrules; Lia.lia.   (* see Section Just *)
 
   (* the call was cut by the curtailment of a Memoize of rank < n *)
   Definition blocked (n : nat) (cp : intset) (lrc : intmap) (pos : N) : Prop :=
@@ -2466,10 +2534,10 @@ Section Prod.
     Proof.
       intros e c stk lrc pos res cp err c' Hr Hci H.
       destruct e; cbn [ranked] in Hr; try discriminate; cbn [parse_step] in H.
-      - (* PTerm *)
-        destruct t as [ch]. unfold term_parse in H.
-        destruct (byte_at inp pos) as [b|]; [destruct (b =? ch)|]; inversion H; subst;
-          (split; [eapply CI_cache; [|exact Hci]; reflexivity|]); intros n _; [left|right; left|right; left]; discriminate.
+      - (* PTerm: rune and literal terminals alike *)
+        destruct (term_parse inp t pos) as [res0 err0] eqn:E. inversion H; subst.
+        split; [eapply CI_cache; [|exact Hci]; destruct res; [destruct err|]; reflexivity|].
+        intros n _. destruct res as [|x res]; [right; left; exact (term_parse_nil _ _ _ _ E)|left; discriminate].
       - (* PEmpty *) inversion H; subst. split; [exact Hci|]. intros n _. left; discriminate.
       - (* PEnd *) destruct (is_eof inp pos); inversion H; subst.
         + split; [exact Hci|]. intros n _. left; discriminate.
